@@ -336,7 +336,19 @@ pub mod fs {
             Verdict::Fail => Err(fslog::injected()),
             Verdict::Crash(_) => state.crash(),
         };
-        state.record("mkdir_all", &format!("op={} path={} ok={}", index, path_field(path), result.is_ok() as u8));
+        // after a failure: how far the call got (the deepest ancestor that is a directory now)
+        let deepest = match &result {
+            Ok(_) => String::new(),
+            Err(_) => {
+                let mut current = Some(path);
+                while let Some(candidate) = current {
+                    if candidate.is_dir() { break; }
+                    current = candidate.parent();
+                }
+                format!(" deepest={}", path_field(current.unwrap_or(Path::new("/"))))
+            }
+        };
+        state.record("mkdir_all", &format!("op={} path={} ok={}{}", index, path_field(path), result.is_ok() as u8, deepest));
         result
     }
 
